@@ -191,11 +191,16 @@ HCIcnbit_decode(compinfo_t *info, int32 length, uint8 *buf)
     sign_mask     = mask_arr32[(nbit_info->mask_off % 8) + 1] ^ mask_arr32[nbit_info->mask_off % 8];
 
     buf_size    = MIN(NBIT_BUF_SIZE, length);
-    buf_items   = buf_size / nbit_info->nt_size; /* compute # of items in buffer */
-    orig_length = length;                        /* save this for later */
-    while (length > 0) {                         /* decode until we have all the bytes */
-        if (nbit_info->buf_pos >= buf_size) {    /* re-fill buffer */
-            rbuf = (uint8 *)nbit_info->buffer;   /* get a ptr to the buffer */
+    orig_length = length; /* save this for later */
+    /* The expansion buffer is sized from the request, so nothing in it is valid
+       for a later request of another size: always start by filling it, and never
+       expand more items than this request still needs. */
+    nbit_info->buf_pos = buf_size;
+    while (length > 0) {                      /* decode until we have all the bytes */
+        if (nbit_info->buf_pos >= buf_size) { /* re-fill buffer */
+            buf_size  = MIN(NBIT_BUF_SIZE, length);
+            buf_items = buf_size / nbit_info->nt_size; /* compute # of items in buffer */
+            rbuf      = (uint8 *)nbit_info->buffer;    /* get a ptr to the buffer */
 
             /* get initial copy of the mask */
             HDmemfill(rbuf, nbit_info->mask_buf, (uint32)nbit_info->nt_size, (uint32)buf_items);
